@@ -193,6 +193,16 @@ def guarded_iter(ctx, gen, tag, witness, failed):
                            dict(witness, expmv=info)))
             failed.append(("__stalled__", "", {}))
             return
+        except Exception as e:
+            # An exception escaping tdvp_ on a documented-valid input is a violation (key = type + innermost yastn frame, as
+            # the driver would name it).  It is collected like the value clauses so that a start that is not canonical can be
+            # classified: un-normalised environments overflow (NaN -> LinAlgError / ValueError / OverflowError).
+            import traceback
+            from vmon.harness import exc_key
+            ctx.count("exceptions_inside_tdvp")
+            failed.append((exc_key(e), f"{tag}: exception escaped tdvp_: {e!r}", dict(witness, traceback=traceback.format_exc()[-2500:])))
+            failed.append(("__stalled__", "", {}))
+            return
         yield out
 
 
